@@ -262,6 +262,19 @@ fn step(s: &mut Session, sink: &mut Sink, op: &str, req: &str, x: usize, y: usiz
     let nonnormal = *cons && has_adjacent_text(s);
     let pre = if spec_op { Some(observe(s, op, s.nodes[x], s.nodes[y])) } else { None };
     let corner = if spec_op { selfmerge_geometry(s, op, s.nodes[x], s.nodes[y]) } else { None };
+    // `replace(a, b)` in the self-merge geometry with a text node directly behind `a`: the corner
+    // `Spec.selfMergeReplace` (finding `C05:replace-selfmerge-leaves-adjacent-text`); remembered
+    // with the text node before `b`, which takes in `b`'s data
+    let replace_corner: Option<Node> = if op == "replace" && corner == Some("replace") {
+        let a = s.nodes[x];
+        let b = s.nodes[y];
+        match (s.xot.next_sibling(a), s.xot.previous_sibling(b)) {
+            (Some(z), Some(p)) if s.xot.is_text(z) => Some(p),
+            _ => None,
+        }
+    } else {
+        None
+    };
     // the compositions "create a node, then append it" and `new_document_with_element`
     let creation_move = matches!(op, "new_doc_with" | "append_text" | "append_element" | "append_comment" | "append_pi");
     let creation_other = crate::suite_fcreation::is_creation_op(op) && !creation_move;
@@ -395,13 +408,50 @@ fn step(s: &mut Session, sink: &mut Sink, op: &str, req: &str, x: usize, y: usiz
         // the PAIR reading of the consolidation clause (`Model/FspecSpec3.lean`) is defined for
         // every forest: compared on every successful move / remove / detach, also when the
         // pre-state already holds adjacent text nodes
-        if matches!(op, "append" | "prepend" | "insert_after" | "insert_before" | "detach" | "remove") {
+        // (since the composite calls have a pair reading too — `Model/FspecSpec4.lean` — also
+        // `unwrap`, `wrap` and `replace`)
+        if matches!(op, "append" | "prepend" | "insert_after" | "insert_before" | "detach" | "remove" | "unwrap" | "wrap") {
             let content = erase_labels(&s.dump());
             sink.lines.insert(mark, (format!("forest specp {}", req), content));
             sink.lines.insert(mark + 1, (format!("forest specpx {}", req), "1".into()));
             sink.stat("specp.checked");
+            sink.stat(&format!("specp.checked.{}", op));
             if nonnormal {
                 sink.stat("specp.checked.prestate-has-adjacent-text");
+                sink.stat(&format!("specp.checked.prestate-has-adjacent-text.{}", op));
+            }
+        }
+        if op == "replace" {
+            let content = erase_labels(&s.dump());
+            // xot's own reading (`specReplaceK`): always
+            sink.lines.insert(mark, (format!("forest specpk {}", req), content.clone()));
+            sink.lines.insert(mark + 1, (format!("forest specpkx {}", req), "1".into()));
+            // the corner predicate of the model against the geometry read off the implementation
+            sink.lines.insert(mark + 2, (format!("forest specpc {}", req), if replace_corner.is_some() { "1" } else { "0" }.into()));
+            sink.stat("specpk.checked");
+            // the reading the property demands (`specReplaceP`): everywhere but in the corner, as long
+            // as the implementation leaves the two text nodes that became adjacent there unmerged
+            let unmerged = match replace_corner {
+                Some(p) => !s.xot.is_removed(p) && s.xot.is_text(p) && s.xot.next_sibling(p).map(|z| s.xot.is_text(z)).unwrap_or(false),
+                None => false,
+            };
+            if unmerged {
+                sink.stat("geometry.selfmerge.replace.leaves-adjacent-text");
+                sink.fail(
+                    "C05",
+                    "C05:replace-selfmerge-leaves-adjacent-text",
+                    &format!("{}: the replacing text node stood between two text nodes directly before the replaced node, which is followed by a text node; the text node that took in the replacing text and the text node behind the replaced node became adjacent in this call and are left unmerged", req),
+                    &s.history,
+                );
+            } else {
+                sink.lines.insert(mark, (format!("forest specp {}", req), content));
+                sink.lines.insert(mark + 1, (format!("forest specpx {}", req), "1".into()));
+                sink.stat("specp.checked");
+                sink.stat("specp.checked.replace");
+                if nonnormal {
+                    sink.stat("specp.checked.prestate-has-adjacent-text");
+                    sink.stat("specp.checked.prestate-has-adjacent-text.replace");
+                }
             }
         }
         if (nonnormal && restrict) || left_adjacent {
@@ -663,8 +713,8 @@ fn exhaustive_adjacent_text(sink: &mut Sink) {
         }
     }
     let seconds = vec![GTree::leaf(GValue::Text("z".into())), GTree::leaf(GValue::Element(6))];
-    const OPS2: &[&str] = &["append", "prepend", "insert_after", "insert_before"];
-    const OPS1: &[&str] = &["detach", "remove"];
+    const OPS2: &[&str] = &["append", "prepend", "insert_after", "insert_before", "replace"];
+    const OPS1: &[&str] = &["detach", "remove", "unwrap", "wrap"];
     for kids in &kid_lists {
         for second in &seconds {
             let forest = vec![GTree::new(GValue::Element(2), kids.clone()), second.clone()];
@@ -680,7 +730,8 @@ fn exhaustive_adjacent_text(sink: &mut Sink) {
                 s.exec(sink, "cons 1");
                 cons = cons || true;
                 let req = match op {
-                    "detach" | "remove" => format!("{} {}", op, a),
+                    "detach" | "remove" | "unwrap" => format!("{} {}", op, a),
+                    "wrap" => format!("wrap {} 6", a),
                     _ => format!("{} {} {}", op, a, b),
                 };
                 sink.stat("exhaustive-adjacent.cases");
@@ -696,6 +747,95 @@ fn exhaustive_adjacent_text(sink: &mut Sink) {
                         run(op, a, b);
                     }
                 }
+            }
+        }
+    }
+}
+
+/// The composite calls on forests that hold adjacent text nodes while consolidation is on:
+/// (1) one element with up to three children drawn from {text, element with one text child,
+/// element with two (adjacent) text children}: `unwrap`, `wrap` of every node and all
+/// `replace(a, b)`; (2) one element with FIVE children drawn from {text, empty element}, at least
+/// one adjacent text pair: all `replace(a, b)` — long enough for the corner `x b p a z`.
+fn exhaustive_adjacent_composite(sink: &mut Sink) {
+    let run = |sink: &mut Sink, forest: &Vec<GTree>, op: &str, a: usize, b: usize| {
+        let mut s = Session::new();
+        let mut cons = false;
+        s.exec(sink, "reset");
+        s.exec(sink, "cons 0");
+        for t in forest {
+            build_ops(&mut s, sink, t);
+        }
+        s.exec(sink, "cons 1");
+        cons = cons || true;
+        let req = match op {
+            "unwrap" => format!("unwrap {}", a),
+            "wrap" => format!("wrap {} 6", a),
+            _ => format!("{} {} {}", op, a, b),
+        };
+        sink.stat("exhaustive-adjacent-composite.cases");
+        step(&mut s, sink, op, &req, a, b, &mut cons, true);
+        s.exec(sink, "dump");
+    };
+    // (1)
+    let alphabet = |i: usize| -> Vec<GTree> {
+        let c = |k: usize| ((b'a' + (3 * i + k) as u8) as char).to_string();
+        vec![
+            GTree::leaf(GValue::Text(c(0))),
+            GTree::new(GValue::Element(3), vec![GTree::leaf(GValue::Text(c(1)))]),
+            GTree::new(GValue::Element(3), vec![GTree::leaf(GValue::Text(c(1))), GTree::leaf(GValue::Text(c(2)))]),
+        ]
+    };
+    let mut kid_lists: Vec<Vec<GTree>> = vec![vec![]];
+    let mut frontier: Vec<Vec<GTree>> = vec![vec![]];
+    for i in 0..3 {
+        let mut next = vec![];
+        for l in &frontier {
+            for a in alphabet(i) {
+                let mut l2 = l.clone();
+                l2.push(a);
+                next.push(l2);
+            }
+        }
+        kid_lists.extend(next.iter().cloned());
+        frontier = next;
+    }
+    let seconds = vec![GTree::leaf(GValue::Text("z".into())), GTree::leaf(GValue::Element(6))];
+    for kids in &kid_lists {
+        if kids.is_empty() {
+            continue;
+        }
+        for second in &seconds {
+            let forest = vec![GTree::new(GValue::Element(2), kids.clone()), second.clone()];
+            let n: usize = forest.iter().map(|t| t.size()).sum();
+            for a in 0..n {
+                run(sink, &forest, "unwrap", a, a);
+                run(sink, &forest, "wrap", a, a);
+                for b in 0..n {
+                    run(sink, &forest, "replace", a, b);
+                }
+            }
+        }
+    }
+    // (2)
+    for mask in 0..(1u32 << 5) {
+        let kids: Vec<GTree> = (0..5)
+            .map(|i| {
+                if mask & (1 << i) != 0 {
+                    GTree::leaf(GValue::Text(((b'a' + i as u8) as char).to_string()))
+                } else {
+                    GTree::leaf(GValue::Element(3))
+                }
+            })
+            .collect();
+        if !kids.windows(2).any(|w| matches!(w[0].v, GValue::Text(_)) && matches!(w[1].v, GValue::Text(_))) {
+            continue;
+        }
+        let forest = vec![GTree::new(GValue::Element(2), kids), GTree::leaf(GValue::Text("z".into()))];
+        let n: usize = forest.iter().map(|t| t.size()).sum();
+        for a in 0..n {
+            for b in 0..n {
+                run(sink, &forest, "replace", a, b);
             }
         }
     }
@@ -818,6 +958,7 @@ pub fn run(seed: u64, count: usize, tier: &str, sink: &mut Sink) {
     }
     if tier != "search" {
         exhaustive_adjacent_text(sink);
+        exhaustive_adjacent_composite(sink);
     }
     directed_creation(sink);
     if tier != "search" {
